@@ -257,6 +257,41 @@ pub fn def_bases(doc: &Doc) -> Vec<String> {
         .collect()
 }
 
+fn closure_from(doc: &Doc, sels: &[Sel]) -> BTreeSet<String> {
+    let mut seen: BTreeSet<String> = BTreeSet::new();
+    let mut frontier: BTreeSet<String> = BTreeSet::new();
+    spreads_deep(sels, &mut frontier);
+    while let Some(n) = frontier.iter().next().cloned() {
+        frontier.remove(&n);
+        if !seen.insert(n.clone()) {
+            continue;
+        }
+        for d in &doc.defs {
+            if let ExecDef::Frag(f) = d {
+                if f.name == n {
+                    let mut next = BTreeSet::new();
+                    spreads_deep(&f.sel, &mut next);
+                    frontier.extend(next.into_iter().filter(|x| !seen.contains(x)));
+                }
+            }
+        }
+    }
+    seen
+}
+
+/// fragment name → indices of the operation definitions that reach it through spreads, in document order
+pub fn reaching_ops(doc: &Doc) -> BTreeMap<String, Vec<usize>> {
+    let mut out: BTreeMap<String, Vec<usize>> = BTreeMap::new();
+    for (i, d) in doc.defs.iter().enumerate() {
+        if let ExecDef::Op(o) = d {
+            for n in closure_from(doc, &o.sel) {
+                out.entry(n).or_default().push(i);
+            }
+        }
+    }
+    out
+}
+
 #[derive(Clone, Copy, Default)]
 struct Mods {
     untyped_inline: bool,
@@ -938,6 +973,70 @@ impl<'a> MCtx<'a> {
         self.introduce_var(&s, ty, None, variant, "list-shape-mismatch")
     }
 
+    // ---- faults whose visibility depends on WHICH operation reaches a shared fragment ----
+    //      A literal inside a fragment that ≥ 2 operations reach is replaced by `$zz_v`; every reaching operation but
+    //      one declares `$zz_v` with the type of the position, the remaining one does not declare it (5.8.3) or
+    //      declares it with an incompatible type (5.8.5). The class records whether the faulty operation is the
+    //      first (document order) or a later one among those that reach the fragment.
+
+    /// plain value sites inside fragment definitions reached by ≥ 2 operations, with the reaching operations
+    fn shared_fragment_sites(&self) -> Vec<(ValSite, Vec<usize>)> {
+        let reach = reaching_ops(self.doc);
+        let mut out = vec![];
+        for s in self.plain_sites(|_| true) {
+            if let ExecDef::Frag(f) = &self.doc.defs[s.def] {
+                if let Some(ops) = reach.get(&f.name) {
+                    if ops.len() >= 2 {
+                        out.push((s, ops.clone()));
+                    }
+                }
+            }
+        }
+        out
+    }
+    fn one_operation_fault(&mut self, incompatible: bool) -> Option<Mutant> {
+        let c = self.shared_fragment_sites();
+        let (s, ops) = pick(self.rng, &c)?;
+        // the first reaching operation is the least interesting choice: take a later one two times out of three
+        let k = if self.rng.chance(1, 3) { 0 } else { 1 + self.rng.below(ops.len() - 1) };
+        let good = strip_ty(&s.ty);
+        let (bad, variant): (Option<Ty>, &str) = if !incompatible {
+            (None, "undefined")
+        } else if s.ty.is_non_null() && !s.loc_default && self.rng.coin() {
+            let Ty::NonNull(inner) = good.clone() else { return None };
+            (Some(*inner), "nullable")
+        } else {
+            (Some(Ty::list(good.clone())), "list-of")
+        };
+        let mut doc = self.doc.clone();
+        *val_mut(&mut doc, &s.owner, &s.inner) = Val::Var("zz_v".into(), p0());
+        for (j, &oi) in ops.iter().enumerate() {
+            if let ExecDef::Op(o) = &mut doc.defs[oi] {
+                let ty = if j == k {
+                    match &bad {
+                        None => continue,
+                        Some(t) => t.clone(),
+                    }
+                } else {
+                    good.clone()
+                };
+                let at = self.rng.below(o.vars.len() + 1);
+                o.vars.insert(at, VarDef { name: "zz_v".into(), pos: p0(), ty, default: None, dirs: vec![] });
+            }
+        }
+        let rank = if k == 0 { "first" } else { "later" };
+        let (rule, mutation) = if incompatible { ("5.8.5", "incompatible-variable-in-one-operation") } else { ("5.8.3", "undefined-variable-in-one-operation") };
+        // the class names WHICH operation is at fault, not the site: the site (`s.class`) does not matter for this kind of fault
+        let base = s.class.split(|c| c == '/' || c == '+').next().unwrap_or("frag").to_string();
+        Some(Mutant { doc, label: self.label(rule, &format!("shared-{}/{}-in-{}-reaching-operation", base, variant, rank), mutation) })
+    }
+    pub fn undefined_variable_in_one_operation(&mut self) -> Option<Mutant> {
+        self.one_operation_fault(false)
+    }
+    pub fn incompatible_variable_in_one_operation(&mut self) -> Option<Mutant> {
+        self.one_operation_fault(true)
+    }
+
     // ---- document level ----
     pub fn duplicate_operation_name(&mut self) -> Option<Mutant> {
         let named: Vec<usize> = self.doc.defs.iter().enumerate().filter(|(_, d)| matches!(d, ExecDef::Op(o) if o.name.is_some())).map(|(i, _)| i).collect();
@@ -1160,7 +1259,7 @@ impl<'a> MCtx<'a> {
     }
 }
 
-pub const MUTATIONS: [&str; 34] = [
+pub const MUTATIONS: [&str; 36] = [
     "rename-field",
     "subselection-on-leaf",
     "drop-subselection",
@@ -1183,6 +1282,8 @@ pub const MUTATIONS: [&str; 34] = [
     "nullable-no-default-at-non-null",
     "remove-needed-default",
     "list-shape-mismatch",
+    "undefined-variable-in-one-operation",
+    "incompatible-variable-in-one-operation",
     "duplicate-operation-name",
     "second-anonymous-operation",
     "duplicate-fragment-name",
@@ -1221,6 +1322,8 @@ pub fn apply(name: &str, ctx: &mut MCtx) -> Option<Mutant> {
         "nullable-no-default-at-non-null" => ctx.nullable_no_default_at_non_null(),
         "remove-needed-default" => ctx.remove_needed_default(),
         "list-shape-mismatch" => ctx.list_shape_mismatch(),
+        "undefined-variable-in-one-operation" => ctx.undefined_variable_in_one_operation(),
+        "incompatible-variable-in-one-operation" => ctx.incompatible_variable_in_one_operation(),
         "duplicate-operation-name" => ctx.duplicate_operation_name(),
         "second-anonymous-operation" => ctx.second_anonymous_operation(),
         "duplicate-fragment-name" => ctx.duplicate_fragment_name(),
@@ -1251,6 +1354,64 @@ pub fn add_unspread_clone(rng: &mut Rng, doc: &Doc) -> Option<(Doc, usize)> {
     out.defs.push(ExecDef::Frag(c));
     let idx = out.defs.len() - 1;
     Some((out, idx))
+}
+
+// ------------------------------------------------------------------------------------------------
+// shape transformations: the document keeps satisfying every implemented rule, but definitions are shared /
+// ordered differently (several operations reaching the same fragments, a fragment reached from an unspread
+// fragment defined before the operations, fragments before operations)
+
+/// a copy of a named operation under a fresh name at a random place: two operations reach exactly the same fragments
+pub fn shape_clone_operation(rng: &mut Rng, doc: &Doc) -> Option<Doc> {
+    let named: Vec<usize> = doc.defs.iter().enumerate().filter(|(_, d)| matches!(d, ExecDef::Op(o) if o.name.is_some())).map(|(i, _)| i).collect();
+    let i = pick(rng, &named)?;
+    let mut c = doc.defs[i].clone();
+    if let ExecDef::Op(o) = &mut c {
+        let base = o.name.as_ref().map(|n| n.0.clone()).unwrap_or_default();
+        let mut k = 0;
+        loop {
+            let cand = if k == 0 { format!("ZzClone{base}") } else { format!("ZzClone{k}{base}") };
+            if !doc.defs.iter().any(|d| matches!(d, ExecDef::Op(o2) if o2.name.as_ref().map(|n| n.0.as_str()) == Some(cand.as_str()))) {
+                o.name = Some((cand, p0()));
+                break;
+            }
+            k += 1;
+        }
+    }
+    let mut out = doc.clone();
+    // after the original more often than before it
+    let at = if rng.chance(2, 3) { i + 1 + rng.below(doc.defs.len() - i) } else { rng.below(i + 1) };
+    out.defs.insert(at, c);
+    Some(out)
+}
+
+/// `fragment ZzWrap on T { ...F }` (never spread) placed before every operation: F and everything F spreads are
+/// reached from an unspread fragment first. Returns the document and the names reached from the wrapper.
+pub fn shape_unspread_wrapper_first(rng: &mut Rng, doc: &Doc) -> Option<(Doc, BTreeSet<String>)> {
+    let fr: Vec<&FragDef> = doc.defs.iter().filter_map(|d| if let ExecDef::Frag(f) = d { Some(f) } else { None }).collect();
+    if fr.is_empty() || fr.iter().any(|f| f.name == "ZzWrap") {
+        return None;
+    }
+    let f = fr[rng.below(fr.len())];
+    let sel = vec![Sel::Spread { name: f.name.clone(), name_pos: p0(), dirs: vec![], pos: p0() }];
+    let reached = closure_from(doc, &sel);
+    let w = FragDef { name: "ZzWrap".into(), name_pos: p0(), cond: f.cond.clone(), cond_pos: p0(), dirs: vec![], sel, pos: p0() };
+    let first_op = doc.defs.iter().position(|d| matches!(d, ExecDef::Op(_))).unwrap_or(0);
+    let mut out = doc.clone();
+    out.defs.insert(rng.below(first_op + 1), ExecDef::Frag(w));
+    Some((out, reached))
+}
+
+/// the same definitions in another order
+pub fn shape_reorder(rng: &mut Rng, doc: &Doc) -> Doc {
+    let mut out = doc.clone();
+    rng.shuffle(&mut out.defs);
+    out
+}
+
+/// names of the definitions of `after` that are not (unchanged) in `before` — the definitions a mutation touched
+pub fn touched_definitions(before: &Doc, after: &Doc) -> Vec<String> {
+    after.defs.iter().filter(|d| !before.defs.contains(d)).filter_map(|d| d.name().map(|s| s.to_string())).collect()
 }
 
 // ------------------------------------------------------------------------------------------------
